@@ -10,7 +10,7 @@ EXPLANATION = (
     "calculation consults once attributes are given (call-graph reachability from generate_state/calculate, cut at the attribute "
     "computation) reaches calculate() from the captured Difficulty — passed_objects from the calculator's own position (R2; the "
     "builder chain is run abstractly, so `.difficulty(d)`, `.mods(d.get_mods())` or a field captured in new() are all accepted). Dropping the captured settings or feeding a modified state compiles and the "
-    "fixture (all-miss state, HDHRDT) notices only gross variants. Equality with the one-shot value is numeric: NOT "
+    "fixture (all-miss state, HDHRDT) notices only gross variants. R3 / R4 (shared with C02-R8 / R9): the gradual next() feeds the skills as the one-shot calculation does, and the gradual constructor prepares the calculation with the same numbers. Equality with the one-shot value is numeric: NOT "
     "decided. next/last delegation is C15-R1.")
 
 
